@@ -420,6 +420,56 @@ async def execute(case):
     return {"log": log, "globals": globs, "load_errors": load_errors, "errors": errs}
 
 
+# ------------------------------------------------------------------------------------------
+# directed scenarios: one module instance however the module is reached
+# ------------------------------------------------------------------------------------------
+
+SPECIAL_FILES = {
+    # two triggers import a module for the first time in the same instant (nobody imported it at load time)
+    "lazy_race": {
+        "modules/lazy.py": "vrec('loaded', 'lazy', pyscript.get_global_ctx())\ncounter = 0\ndef bump():\n    global counter\n    counter += 1\n    return counter\n",
+        "a.py": "@event_trigger('go')\ndef fa(**kw):\n    import lazy\n    vrec('bump', 'a', lazy.bump())\n",
+        "b.py": "@event_trigger('go')\ndef fb(**kw):\n    import lazy\n    vrec('bump', 'b', lazy.bump())\n",
+    },
+    # a package file that is not __init__.py imports a sibling relatively; a script imports the same file by its dotted name
+    "rel_sibling": {
+        "modules/pkg/__init__.py": "from .sub import subval\n",
+        "modules/pkg/sub.py": "vrec('loaded', 'sub', pyscript.get_global_ctx())\nfrom .other import bump as obump\nsubval = obump()\n",
+        "modules/pkg/other.py": "vrec('loaded', 'other', pyscript.get_global_ctx())\ncnt = 0\ndef bump():\n    global cnt\n    cnt += 1\n    return cnt\n",
+        "a.py": "import pkg\nimport pkg.other as po\nvrec('bump', 'a', po.bump())\n@event_trigger('go')\ndef fa(**kw):\n    vrec('bump', 'a', po.bump())\n",
+    },
+    # the same one level deeper: a file of a sub-package reaches a file of the parent package with two dots
+    "rel_parent": {
+        "modules/pkg/__init__.py": "from .deep import leafval\n",
+        "modules/pkg/deep/__init__.py": "from .leaf import leafval\n",
+        "modules/pkg/deep/leaf.py": "vrec('loaded', 'leaf', pyscript.get_global_ctx())\nfrom ..other import bump as obump\nleafval = obump()\n",
+        "modules/pkg/other.py": "vrec('loaded', 'other', pyscript.get_global_ctx())\ncnt = 0\ndef bump():\n    global cnt\n    cnt += 1\n    return cnt\n",
+        "a.py": "import pkg\nimport pkg.other as po\nvrec('bump', 'a', po.bump())\n@event_trigger('go')\ndef fa(**kw):\n    vrec('bump', 'a', po.bump())\n",
+    },
+}
+SPECIAL_EXPECTED = {
+    "lazy_race": {"loaded": [["lazy", "modules.lazy"]], "bumps": [1, 2, 3, 4], "contexts": ["file.a", "file.b", "modules.lazy"]},
+    "rel_sibling": {"loaded": [["other", "modules.pkg.other"], ["sub", "modules.pkg.sub"]], "bumps": [2, 3, 4],
+                    "contexts": ["file.a", "modules.pkg", "modules.pkg.other", "modules.pkg.sub"]},
+    "rel_parent": {"loaded": [["leaf", "modules.pkg.deep.leaf"], ["other", "modules.pkg.other"]], "bumps": [2, 3, 4],
+                   "contexts": ["file.a", "modules.pkg", "modules.pkg.deep", "modules.pkg.deep.leaf", "modules.pkg.other"]},
+}
+
+
+async def execute_special(case):
+    from custom_components.pyscript.global_ctx import GlobalContextMgr
+
+    async with l3.Integ(SPECIAL_FILES[case["special"]], legacy=case["legacy"]) as it:
+        for _ in range(2):
+            it.fire("go", {})
+            await it.sleep(1)
+        recs = [list(a) for vt, a, kw in it.records]
+        ctxs = sorted(c for c in GlobalContextMgr.contexts if c.split(".")[0] in ("file", "modules"))
+        errs = [e[2][-200:] for e in it.errors()]
+        await it.unload()
+    return {"loaded": sorted([r[1], r[2]] for r in recs if r[0] == "loaded"), "bumps": sorted(r[2] for r in recs if r[0] == "bump"), "contexts": ctxs, "errors": errs}
+
+
 class C11(ModelCheck):
     prop = PROP
     rule = (
@@ -431,7 +481,7 @@ class C11(ModelCheck):
         "third file) each followed by a probe of the caller's own globals; entry through an event trigger, a service or "
         "task.create; optionally first two overlapping runs of one trigger that are both suspended inside a function of the shared module; 2-6 entries in generated order; then, in half of the cases, 2-10 cells of an interactive (Jupyter-style) session context: define / read / write globals, "
         "pyscript.set_global_ctx to a script, back to the session or to a missing name, get_global_ctx, list_global_ctx, a function defined in "
-        "one context and called after switching to another. Oracle: CPython importing the same files as ordinary modules - "
+        "one context and called after switching to another; plus three directed scenarios in both subsystems (two triggers importing a module for the first time in the same instant; a package file other than __init__.py importing a sibling / a parent-package file relatively while a script imports the same file by its dotted name: one context, one instance, one execution). Oracle: CPython importing the same files as ordinary modules - "
         "the ordered tracer log, the non-dunder globals of every file and module afterwards (so a write that lands in "
         "the wrong file, a second module instance or a leaked star-import name is visible) must agree. Non-trivial = >= 2 "
         "files sharing a global name and >= 1 executed cross-file call; distinct by case content."
@@ -444,8 +494,21 @@ class C11(ModelCheck):
     def gen(self, R):
         return gen(R)
 
+    def exhaustive_cases(self, tier):
+        return [{"special": k, "legacy": lg} for k in SPECIAL_FILES for lg in (False, True)]
+
+    def attribute(self, case, r):
+        if case.get("special") == "lazy_race" and any(f["id"] == "C11-concurrent-first-import-two-instances" for f in core.open_findings(PROP)):
+            return "C11-concurrent-first-import-two-instances"
+        return None
+
     def run(self, case):
         case = json.loads(json.dumps(case))
+        if case.get("special"):
+            obs = l3.run_case(execute_special, case)
+            errs = obs.pop("errors")
+            return {"expected": SPECIAL_EXPECTED[case["special"]], "observed": obs, "nontrivial": True,
+                    "classes": ["legacy" if case["legacy"] else "new", "special-" + case["special"]], "detail": {"errors": errs[:3]}}
         ref = run_cpython(case)
         obs = l3.run_case(execute, case)
         exp = {"log": ref["log"], "globals": ref["globals"], "load_errors": sorted(ref["load_errors"])}
@@ -456,6 +519,8 @@ class C11(ModelCheck):
 
     def bucket(self, case, r):
         e, o = r["expected"], r["observed"]
+        if case.get("special"):
+            return "special|" + case["special"] + "|" + ",".join(k for k in e if e[k] != o.get(k))
         if e["load_errors"] != o["load_errors"]:
             return "load"
         if e["log"] != o["log"]:
